@@ -46,6 +46,10 @@ def gen_case(rng, cid, profile, nops):
         ttl = rng.choice([5, 9, 15])
         keys = None
         w = [(SET, 65), (GET, 25), (DEL, 4), (RESET, 0), (LEN, 2), (ALEN, 4)]
+    elif profile == "big":  # the slice outgrows its initial capacity (128) before anything expires
+        ttl = rng.choice([300, 450])
+        keys = None
+        w = [(SET, 78), (GET, 14), (DEL, 4), (RESET, 0), (LEN, 2), (ALEN, 2)]
     elif profile == "edge":
         ttl = rng.choice([0, -3, 1, 1, 2])
         keys = list(range(1, 4))
@@ -59,7 +63,9 @@ def gen_case(rng, cid, profile, nops):
     recent = []
     for _ in range(nops):
         r = rng.random()
-        if profile == "nonmono" and r < 0.15:
+        if profile == "big":
+            now += 0 if r < 0.3 else (1 if r < 0.97 else rng.randint(2, 4))
+        elif profile == "nonmono" and r < 0.15:
             now = max(0, now - rng.randint(1, ttl + 2))
         elif r < 0.40:
             pass
@@ -126,12 +132,12 @@ def gen_cases(ctx):
                 c = json.load(open(os.path.join(cdir, fn)))
                 c["profile"] = "corpus"
                 cases.append(c)
-    plan = [("churn", 45, 150), ("dedup", 30, 150), ("holes", 40, 180), ("refresh", 30, 150), ("edge", 20, 80), ("nonmono", 20, 100)]
+    plan = [("churn", 45, 150), ("dedup", 30, 150), ("holes", 40, 180), ("refresh", 30, 150), ("edge", 20, 80), ("nonmono", 20, 100), ("big", 3, 1100)]
     if ctx.thorough:
-        plan = [(p, n * 8, l) for p, n, l in plan] + [("dedup", 40, 900), ("holes", 40, 900), ("refresh", 40, 900)]
+        plan = [(p, n * 5, l) for p, n, l in plan] + [("dedup", 30, 900), ("holes", 30, 900), ("refresh", 30, 900)]
     for profile, n, nops in plan:
         for _ in range(n):
-            cases.append(gen_case(rng, 0, profile, rng.randint(nops // 2, nops)))
+            cases.append(gen_case(rng, 0, profile, nops if profile == "big" else rng.randint(nops // 2, nops)))
     for i, c in enumerate(cases):
         c["id"] = i
     return cases
